@@ -57,6 +57,7 @@ type hsCfg struct {
 	server  bool
 	timeout bool
 	proxy   bool
+	ctxDL   bool // the deadline comes from the caller's context (HandshakeTimeout is zero), client only
 }
 
 // one handshake over a scripted conn with the given op failing; returns the conn's op log etc.
@@ -85,8 +86,14 @@ func runHandshake(cfg hsCfg, failAt int, kind string, proxyReply string) (t *TCo
 		return
 	}
 	d := &websocket.Dialer{}
-	if cfg.timeout {
+	ctx := context.Background()
+	if cfg.timeout && !cfg.ctxDL {
 		d.HandshakeTimeout = time.Hour
+	}
+	if cfg.ctxDL {
+		var cancel context.CancelFunc
+		ctx, cancel = context.WithTimeout(ctx, time.Hour)
+		defer cancel()
 	}
 	if cfg.proxy {
 		d.Proxy = func(*http.Request) (*url.URL, error) { return url.Parse("http://proxy.test:8080") }
@@ -94,14 +101,16 @@ func runHandshake(cfg hsCfg, failAt int, kind string, proxyReply string) (t *TCo
 	}
 	t.dynQ = append(t.dynQ, func(w []byte) []byte { return replyFor(w, 0) })
 	d.NetDialContext = func(ctx context.Context, network, addr string) (net.Conn, error) { return t, nil }
-	conn, _, err = d.Dial("ws://backend.test/path", nil)
+	conn, _, err = d.DialContext(ctx, "ws://backend.test/path", nil)
 	return
 }
 
 func runHsFaultScenario(seed int64, idx int) *scenario {
 	r := rand.New(rand.NewSource(seed))
 	sc := &scenario{kind: "hsfault", seed: seed}
-	cfg := hsCfg{server: idx%3 == 0, timeout: (idx/3)%2 == 0, proxy: idx%3 == 1}
+	tv := (idx / 3) % 3 // 0: HandshakeTimeout, 1: no deadline, 2: deadline from the caller's context
+	cfg := hsCfg{server: idx%3 == 0, timeout: tv != 1, proxy: idx%3 == 1}
+	cfg.ctxDL = tv == 2 && !cfg.server
 	// fault-free run first: it defines the op list
 	t0, c0, err0, p0 := runHandshake(cfg, -1, "", "HTTP/1.1 200 Connection established\r\n\r\n")
 	line := fmt.Sprintf("plan server=%d timeout=%d proxy=%d", b2i(cfg.server), b2i(cfg.timeout), b2i(cfg.proxy))
@@ -173,7 +182,8 @@ func runHsFaultScenario(seed int64, idx int) *scenario {
 	}
 	// proxy refusals: any non-200 reply aborts with an error, connection closed, no panic (F6)
 	if cfg.proxy {
-		for _, rep := range []string{"HTTP/1.1 407 Proxy Authentication Required\r\n\r\n", "HTTP/1.1 407\r\n\r\n", "HTTP/1.1 502 Bad Gateway\r\nContent-Length: 3\r\n\r\nabc", "HTTP/1.1 301 \r\n\r\n", "garbage\r\n\r\n", ""} {
+		for _, rep := range []string{"HTTP/1.1 407 Proxy Authentication Required\r\n\r\n", "HTTP/1.1 407\r\n\r\n", "HTTP/1.1 502 Bad Gateway\r\nContent-Length: 3\r\n\r\nabc", "HTTP/1.1 301 \r\n\r\n", "garbage\r\n\r\n", "",
+			"HTTP/1.1 201 Created\r\n\r\n", "HTTP/1.1 204 No Content\r\n\r\n", "HTTP/1.1 299 x\r\n\r\n", "HTTP/1.1 202 Accepted\r\nContent-Length: 0\r\n\r\n", "HTTP/1.1 100 Continue\r\n\r\n"} {
 			t, c, err, p := runHandshake(cfg, -1, "", rep)
 			if p != "" {
 				sc.knownHit("F6-proxy-status-without-reason", fmt.Sprintf("CONNECT reply %q: panic %s", rep, p))
